@@ -23,6 +23,9 @@ TRun == /\ Step("Run") /\ Keep /\ ref' = ref
 TDiag == /\ Step("Diags") /\ Keep /\ UNCHANGED <<verdicts, ref>>
          /\ (\E i \in 1..Len(Ev.diags) : Ev.diags[i].file # Ev.input) => Report2("file-attribution", "")
          /\ (\E i \in 1..Len(Ev.diags) : Ev.diags[i].emptyarg) => Report2("empty-argument", "")
+         \* every diagnostic is an instance of a message of the table (src/express/error.c) with its arguments filled in
+         \* completely: a line that matches no template has lost part of its text
+         /\ (\E i \in 1..Len(Ev.diags) : Ev.diags[i].code = "") => Report2("diagnostic-matches-no-message", "")
          /\ (Ev.lexeme # "" /\ \E i \in 1..Len(Ev.diags) : Ev.diags[i].code = Ev.code /\ ~Ev.diags[i].haslexeme) => Report2("wrong-argument", "")
 (* C20: -w c / -i c change only whether class-c warnings are printed *)
 Filter(ds, c) == SelectSeq(ds, LAMBDA d : ~(d.sev = "WARNING" /\ d.cls = c))
